@@ -616,6 +616,10 @@ func (cs *checkerSet) c05State(w *World, s *Snap, why string) *core.Violation {
 		if s.Accounts[k].State == etypes.AccountOpen && !depOrBid[k] {
 			return r.Flag("C05/open-account-without-object", "%s: open escrow account %s belongs to no deployment or bid", why, k)
 		}
+		// "returned exactly when the bid or the deployment ends": an account that is no longer open keeps nothing
+		if a := s.Accounts[k]; a.State != etypes.AccountOpen && !a.Balance.Amount.IsNil() && !a.Balance.IsZero() {
+			return r.Flag("C05/ended-account-keeps-deposit", "%s: escrow account %s is %s and still holds %s", why, k, a.State, a.Balance)
+		}
 	}
 	return nil
 }
